@@ -4,6 +4,7 @@ import (
 	"fmt"
 	"math"
 	"reflect"
+	"strings"
 	"regexp"
 
 	"go.flow.arcalot.io/pluginsdk/schema"
@@ -112,6 +113,15 @@ func tySquareObj() *schema.ObjectSchema {
 	})
 }
 
+// tyLoose: a struct whose fields are interface-typed (third-party structs are): whatever they hold,
+// Validate and Serialize answer with a verdict.
+type tyLoose struct {
+	Timeout any `json:"timeout"`
+	Name    any `json:"name"`
+	Tags    any `json:"tags"`
+	Plain   any `json:"plain"`
+}
+
 type tyCore struct {
 	name  string
 	build func() schema.Type
@@ -155,6 +165,23 @@ func tyCores() []tyCore {
 				0: schema.NewObjectSchema("A", map[string]*schema.PropertySchema{"x": tyProp(schema.NewAnySchema(), false)}),
 				-1: schema.NewObjectSchema("B", map[string]*schema.PropertySchema{"y": tyProp(schema.NewIntSchema(nil, nil, nil), false)}),
 			}, "k", false)
+		}},
+		{"oneof-string inlined map members, named-enum discriminator", func() schema.Type {
+			mk := func(id string, own string) schema.Object {
+				return schema.NewObjectSchema(id, map[string]*schema.PropertySchema{
+					"kind": tyProp(schema.NewTypedStringEnumSchema(map[tyColour]*schema.DisplayValue{"red": nil, "green": nil}), true),
+					own:    tyProp(schema.NewIntSchema(nil, nil, nil), false),
+				})
+			}
+			return schema.NewOneOfStringSchema[any](map[string]schema.Object{"red": mk("R", "r"), "green": mk("G", "s")}, "kind", true)
+		}},
+		{"struct-mapped with interface-typed fields", func() schema.Type {
+			return schema.NewStructMappedObjectSchema[tyLoose]("Loose", map[string]*schema.PropertySchema{
+				"timeout": tyProp(schema.NewIntSchema(nil, nil, nil), false).TreatEmptyAsDefaultValue(),
+				"name":    tyProp(schema.NewStringSchema(nil, nil, nil), false).TreatEmptyAsDefaultValue(),
+				"tags":    tyProp(schema.NewListSchema(schema.NewStringSchema(nil, nil, nil), nil, nil), false).TreatEmptyAsDefaultValue(),
+				"plain":   tyProp(schema.NewIntSchema(nil, nil, nil), false),
+			})
 		}},
 		{"struct-mapped", func() schema.Type { return tySquareObj() }},
 		{"typed-object", func() schema.Type {
@@ -212,6 +239,13 @@ func tyTargeted() []any {
 		map[string]any{"kind": 0, "reason": "done"}, map[string]any{"kind": int64(1), "speed": 3}, map[string]any{"kind": "0", "reason": "r"},
 		map[string]any{"kind": uint64(0)}, map[string]any{"kind": 0.0, "reason": "x"}, map[string]any{"kind": "", "reason": "done"},
 		map[string]any{"kind": "go", "speed": 5}, map[string]any{"kind": 2}, tyStop{Reason: "s"}, &tyGo{Kind: 1, Speed: 2}, tyStopS{}, tyGoS{Kind: "go"},
+		map[string]any{"kind": "red", "r": 3}, map[string]any{"kind": tyColour("green"), "s": 1}, map[any]any{"kind": "green"}, map[string]any{"kind": "blue", "r": 1},
+		map[string]any{"kind": 1, "s": 2}, map[string]any{"kind": uint8(0), "r": 2}, map[string]any{"kind": "1", "s": 2},
+		map[string]any{"timeout": 5, "name": "n", "tags": []any{"a"}, "plain": 1}, map[string]any{},
+		tyLoose{}, tyLoose{Timeout: int64(5), Name: "n", Tags: []string{"a"}, Plain: int64(1)}, tyLoose{Timeout: map[string]any{"a": 1}}, tyLoose{Timeout: []int{1}},
+		tyLoose{Timeout: (*int64)(nil)}, tyLoose{Timeout: &u}, tyLoose{Timeout: true}, tyLoose{Timeout: "5"}, tyLoose{Timeout: 2.5}, tyLoose{Timeout: tyTriangle{A: 1}},
+		tyLoose{Name: 1.5}, tyLoose{Name: []byte("n")}, tyLoose{Name: map[string]string{}}, tyLoose{Name: &u}, tyLoose{Tags: "a"}, tyLoose{Tags: map[string]any{}},
+		tyLoose{Tags: []any{1}}, tyLoose{Tags: [1]string{"a"}}, tyLoose{Plain: []any{}}, tyLoose{Plain: complex(1, 1)}, &tyLoose{Timeout: int32(0), Name: "", Tags: []string{}},
 		// map keys of unusual kinds: arrays (hashable, but their conversion is not), NaN (cannot be looked up again),
 		// structs, pointers, bools, nil interfaces - alone and next to a valid discriminator
 		map[[2]string]int{{"a", "b"}: 1}, map[any]any{[2]string{"a", "b"}: 1}, map[[0]int]string{{}: "z"}, map[tyTriangle]string{{A: 1}: "t"},
@@ -226,6 +260,7 @@ func groupTyped(s *sink, g *hx.Gen) {
 	groupTypedPaths(s, g)
 	groupStepOutput(s, g)
 	groupTypedRules(s, g)
+	groupOneOfTwins(s, g)
 	cores := tyCores()
 	wraps := tyWraps()
 	core := cores[g.R.Intn(len(cores))]
@@ -312,6 +347,9 @@ func groupTyped(s *sink, g *hx.Gen) {
 				s.finding(Finding{Prop: "C04", What: "panic in the Validate/Serialize chain of an unserialized value: " + chainRes.Msg, Detail: []string{desc}})
 			} else if chainRes.R != "ok" {
 				s.finding(Finding{Prop: "C01", What: "typed schema: " + chainRes.Msg, Detail: []string{desc}})
+				if strings.HasPrefix(core.name, "oneof") && strings.Contains(chainRes.Msg, "result of Unserialize fails") {
+					s.finding(Finding{Prop: "C03", What: "one-of dispatch: Validate / Serialize do not accept, for the member Unserialize selected, the value Unserialize returned: " + chainRes.Msg, Detail: []string{desc}})
+				}
 			}
 		}
 	}
